@@ -207,6 +207,7 @@ type Interp struct {
 	objSeq    int
 	whileNest int
 	forNest   int
+	patPath   map[interface{}]bool
 }
 
 type faultP struct{ f *Fault }
@@ -603,9 +604,6 @@ func (in *Interp) eval(n *Node, env *Env) Value {
 		a, ok := av.(*Arr)
 		if !ok {
 			in.unspecCheck(av)
-			if !pure(n.Kids[1], env) {
-				ood("index on a non-array with an impure index expression")
-			}
 			in.fault(n.Line, "", "NotAnArray")
 		}
 		i := in.index(n, a, iv)
@@ -617,13 +615,7 @@ func (in *Interp) eval(n *Node, env *Env) Value {
 		a, ok := av.(*Arr)
 		if !ok {
 			in.unspecCheck(av)
-			if !pure(n.Kids[1], env) || !pure(n.Kids[2], env) {
-				ood("indexed store on a non-array with impure index/value expressions")
-			}
 			in.fault(n.Line, "", "NotAnArray")
-		}
-		if _, bad := in.indexOK(a, iv); bad && !pure(n.Kids[2], env) {
-			ood("indexed store with a bad index and an impure value expression")
 		}
 		i := in.index(n, a, iv)
 		a.Elems[i] = v
@@ -1291,12 +1283,30 @@ func (in *Interp) builtin(n *Node, nick string, a []Value) Value {
 
 // pattern snapshots a value as an expected-output pattern.
 func (in *Interp) pattern(v Value, top bool) *Pat {
+	in.patPath = map[interface{}]bool{}
 	return in.pat(v, top, 0)
 }
 
 func (in *Interp) pat(v Value, top bool, depth int) *Pat {
-	if depth > 50 {
-		ood("printing a cyclic or very deep structure")
+	if depth > 200 {
+		ood("printing a very deep structure")
+	}
+	// a container that is already being rendered (it contains itself) cannot be
+	// shown in full: any short back-reference marker is accepted at that point;
+	// everything that is not part of the cycle must still be shown completely
+	switch x := v.(type) {
+	case *Arr:
+		if in.patPath[x] {
+			return &Pat{Kind: "backref"}
+		}
+		in.patPath[x] = true
+		defer delete(in.patPath, x)
+	case *Obj:
+		if in.patPath[x] {
+			return &Pat{Kind: "backref"}
+		}
+		in.patPath[x] = true
+		defer delete(in.patPath, x)
 	}
 	switch x := v.(type) {
 	case Nil:
